@@ -56,6 +56,8 @@ def pointsets(tier, seed):
         ('three-3d', clip(np.vstack([r.normal(0.2, 0.02, (60, 3)), r.normal(0.5, 0.02, (60, 3)), r.normal(0.8, 0.02, (60, 3))])), 10),
         ('overlapping-2d', clip(np.vstack([r.normal(0.45, 0.05, (100, 2)), r.normal(0.55, 0.05, (100, 2))])), 10),
         ('core+halo-2d-window', clip(np.vstack([r.normal(0.5, 0.01, (14, 2)), r.normal(0.5, 0.2, (9, 2))])), 8),
+        ('disc+dense+sparse-2d', clip(np.vstack([np.array([0.2, 0.2]) + 0.05 * (lambda rr, ph: np.column_stack([rr * np.cos(ph), rr * np.sin(ph)]))(np.sqrt(r.random(120)), 2 * np.pi * r.random(120)),
+                                                  r.normal([0.8, 0.2], 0.002, (15, 2)), r.normal([0.5, 0.7], 0.2, (14, 2))])), 10),
         ('uniform-ball-3d', clip(0.5 + 0.3 * (lambda x: x / np.linalg.norm(x, axis=1)[:, None] * r.uniform(0, 1, (len(x), 1)) ** (1 / 3))(r.normal(size=(120, 3)))), 6),
     ]
     if tier == 'thorough':
@@ -98,6 +100,16 @@ def direct(pre, post, op, arg, ret, exc, nmin, construction, trimmed, ids):
     want = sorted(i for i in construction if i not in trimmed)
     if have != want:
         f.append('points of the ellipsoids (%d) are not the construction points not yet trimmed (%d)' % (len(have), len(want)))
+    # a record stays with its ellipsoid: points, volume and may-split flag of an untouched ellipsoid do not change
+    # (split may set the flag of an ellipsoid it tried and could not improve)
+    if len(post['p']) == n and len(post['v']) == n and len(post['blk']) == n:
+        for i, b in enumerate(pre['b']):
+            for j, c in enumerate(post['b']):
+                if b is c:
+                    if not np.array_equal(pre['p'][i], post['p'][j]) or pre['v'][i] != post['v'][j]:
+                        f.append('points or volume of an untouched ellipsoid changed')
+                    if pre['blk'][i] != post['blk'][j] and not (op == 'S' and not pre['blk'][i] and post['blk'][j]):
+                        f.append('may-split flag of an untouched ellipsoid changed from %s to %s during %s' % (pre['blk'][i], post['blk'][j], {'S': 'split', 'T': 'trim', 'P': 'sample'}[op]))
     same = (len(pre['b']) == len(post['b']) and all(a is b for a, b in zip(pre['b'], post['b']))
             and all(np.array_equal(a, b) for a, b in zip(pre['p'], post['p'])))
     if op == 'S':
